@@ -126,7 +126,7 @@ func c03Steps(full bool) func(n *Node) []Step {
 		add(Run("branch", "-d", "main"))
 		add(Run("branch", "-d", "nope"))
 		for i, pt := range journalPositions(a) {
-			if i > 12 {
+			if i > 12 || (!full && i > 6) {
 				break
 			}
 			for _, m := range []string{"--soft", "--mixed", "--hard"} {
